@@ -273,6 +273,19 @@ func scanWhole(c *core.Ctx, scan *ssa.Function) (bad, undecided string) {
 	if fmt.Sprint(got) != fmt.Sprint(want) {
 		return fmt.Sprintf("struct {a; Embedded{x; y unexported}; b}: recorded %v, expected %v", got, want), ""
 	}
+	// an unexported field is passed over whatever it carries (a tag of another library, say): the fields after it
+	// are recorded all the same
+	layout2 := map[string][]scanField{
+		"T:top":      {{"a", false, 24, true, `wire:""`}, {"u", false, 21, false, `json:"-"`}, {"Embedded", true, 25, true, ""}, {"b", false, 22, true, ""}},
+		"T:Embedded": {{"y", false, 24, false, `yaml:"y"`}, {"x", false, 24, true, ""}},
+	}
+	got, und = scanWholeRun(c, scan, layout2)
+	if und != "" {
+		return "", und
+	}
+	if fmt.Sprint(got) != fmt.Sprint(want) {
+		return fmt.Sprintf("struct {a; u unexported, tagged; Embedded{y unexported, tagged; x}; b}: recorded %v, expected %v", got, want), ""
+	}
 	return "", ""
 }
 
@@ -378,8 +391,10 @@ func scanWholeRun(c *core.Ctx, scan *ssa.Function, layout map[string][]scanField
 		}
 		return absint.Nil{}
 	}
+	// the struct-field iterator of util/reflectx is interpreted like the rest (it is part of the scan: what it visits,
+	// how often and in which order decides what is recorded); only an iterator without a body would be modelled
 	for _, fn := range c.Scope {
-		if p := core.PkgOf(fn); p == nil || !strings.HasSuffix(p.Pkg.Path(), "util/reflectx") || fn.Parent() != nil {
+		if p := core.PkgOf(fn); p == nil || !strings.HasSuffix(p.Pkg.Path(), "util/reflectx") || fn.Parent() != nil || fn.Blocks != nil {
 			continue
 		}
 		for _, pa := range fn.Params {
@@ -478,154 +493,157 @@ func tagScanTable(c *core.Ctx) (rs rows, runs int, fn *ssa.Function, undecided s
 	}
 	// per-field situation: 0 = own tag present, 1 = only handler accepts, 2 = handler accepts with its own tag, 3 = nothing, 4 = both
 	sits := []int{0, 1, 2, 3, 4}
-	for _, ownTag := range []string{"wire", ""} {
-		for _, hasHandler := range []bool{true, false} {
-			for _, required := range []bool{true, false} {
-				for _, tagSaysRequired := range []bool{true, false} {
-					for _, s1 := range sits {
-						for _, s2 := range sits {
-							var created, setArgs, handlerAsked []string
-							var registered []string
-							var regKey absint.Value
-							build := func() (absint.Oracle, []absint.Value, []absint.Value) {
-								created, setArgs, handlerAsked, registered, regKey = nil, nil, nil, nil, nil
-								t := newTbl(c)
-								stringModels(t)
-								d := absint.NewTok("scanner", "scanner")
-								d.Fields["Tag"], d.Fields["Required"], d.Fields["NodeType"] = absint.Str(ownTag), absint.Bool(required), absint.Str("Component")
-								handler := absint.NewTok("handler", "func")
-								if hasHandler {
-									d.Fields["ExtractHandler"] = handler
-								} else {
-									d.Fields["ExtractHandler"] = absint.Nil{}
-								}
-								meta := absint.NewTok("meta", "meta")
-								fl := &absint.List{}
-								for i, s := range []int{s1, s2} {
-									f := absint.NewTok(fmt.Sprintf("F%d", i), "field")
-									f.Attr["sit"] = absint.Int(s)
-									sf := absint.NewTok(fmt.Sprintf("F%d.StructField", i), "structfield")
-									tg := absint.NewTok(fmt.Sprintf("F%d.Tag", i), "structtag")
-									tg.Attr["sit"] = absint.Int(s)
-									sf.Fields["Tag"] = tg
-									f.Fields["StructField"] = sf
-									fl.Elems = append(fl.Elems, f)
-								}
-								meta.Fields["Fields"] = fl
-								t.invoke[ro.DRGetMetaOrRegister] = func(ip *absint.Interp, a []absint.Value) absint.Value {
-									regKey = a[1]
-									return meta
-								}
-								t.ext["(reflect.StructTag).Lookup"] = func(ip *absint.Interp, a []absint.Value) absint.Value {
-									tg := a[0].(*absint.Tok)
-									s := int(tg.Attr["sit"].(absint.Int))
-									if k, ok := a[1].(absint.Str); !ok || string(k) != ownTag {
-										panic(&absint.Undecided{Msg: "tag lookup with a key other than the processor's tag"})
+	// (the kind of property a scanner produces is the one it was configured with, whatever that is - also none)
+	for _, nodeType := range []string{"Component", "Configuration", ""} {
+		for _, ownTag := range []string{"wire", ""} {
+			for _, hasHandler := range []bool{true, false} {
+				for _, required := range []bool{true, false} {
+					for _, tagSaysRequired := range []bool{true, false} {
+						for _, s1 := range sits {
+							for _, s2 := range sits {
+								var created, setArgs, handlerAsked []string
+								var registered []string
+								var regKey absint.Value
+								build := func() (absint.Oracle, []absint.Value, []absint.Value) {
+									created, setArgs, handlerAsked, registered, regKey = nil, nil, nil, nil, nil
+									t := newTbl(c)
+									stringModels(t)
+									d := absint.NewTok("scanner", "scanner")
+									d.Fields["Tag"], d.Fields["Required"], d.Fields["NodeType"] = absint.Str(ownTag), absint.Bool(required), absint.Str(nodeType)
+									handler := absint.NewTok("handler", "func")
+									if hasHandler {
+										d.Fields["ExtractHandler"] = handler
+									} else {
+										d.Fields["ExtractHandler"] = absint.Nil{}
 									}
-									if s == 0 || s == 4 {
-										return absint.Tuple{absint.Str(" val:" + tg.ID + " ,a=1 "), absint.Bool(true)}
+									meta := absint.NewTok("meta", "meta")
+									fl := &absint.List{}
+									for i, s := range []int{s1, s2} {
+										f := absint.NewTok(fmt.Sprintf("F%d", i), "field")
+										f.Attr["sit"] = absint.Int(s)
+										sf := absint.NewTok(fmt.Sprintf("F%d.StructField", i), "structfield")
+										tg := absint.NewTok(fmt.Sprintf("F%d.Tag", i), "structtag")
+										tg.Attr["sit"] = absint.Int(s)
+										sf.Fields["Tag"] = tg
+										f.Fields["StructField"] = sf
+										fl.Elems = append(fl.Elems, f)
 									}
-									return absint.Tuple{absint.Str(""), absint.Bool(false)}
-								}
-								t.dynamic = func(ip *absint.Interp, fv absint.Value, a []absint.Value) (absint.Value, bool) {
-									if fv != absint.Value(handler) {
-										return nil, false
+									meta.Fields["Fields"] = fl
+									t.invoke[ro.DRGetMetaOrRegister] = func(ip *absint.Interp, a []absint.Value) absint.Value {
+										regKey = a[1]
+										return meta
 									}
-									f := a[1].(*absint.Tok)
-									handlerAsked = append(handlerAsked, f.ID)
-									switch int(f.Attr["sit"].(absint.Int)) {
-									case 1, 4:
-										return absint.Tuple{absint.Str(""), absint.Str(" hval:" + f.ID + " ,b= "), absint.Bool(true)}, true
-									case 2:
-										return absint.Tuple{absint.Str("htag"), absint.Str(" hval:" + f.ID + " ,b= "), absint.Bool(true)}, true
-									}
-									return absint.Tuple{absint.Str(""), absint.Str(""), absint.Bool(false)}, true
-								}
-								t.callee[newProp] = func(ip *absint.Interp, a []absint.Value) absint.Value {
-									p := absint.NewTok(fmt.Sprintf("P(%s,%s,%s,%s)", absint.Show(a[0]), absint.Show(a[1]), absint.Show(a[2]), absint.Show(a[3])), "property")
-									created = append(created, p.ID)
-									return p
-								}
-								t.callee[argsM] = func(ip *absint.Interp, a []absint.Value) absint.Value { return a[0] }
-								t.callee[has] = func(ip *absint.Interp, a []absint.Value) absint.Value {
-									if k, ok := a[1].(absint.Str); !ok || !strings.EqualFold(string(k), "required") {
-										panic(&absint.Undecided{Msg: "Has asked about another argument"})
-									}
-									return absint.Bool(tagSaysRequired)
-								}
-								t.callee[setArg] = func(ip *absint.Interp, a []absint.Value) absint.Value {
-									setArgs = append(setArgs, absint.Show(a[0])+":"+absint.Show(a[1]))
-									return nil
-								}
-								t.callee[setProps] = func(ip *absint.Interp, a []absint.Value) absint.Value {
-									if a[0] != absint.Value(meta) {
-										registered = append(registered, "WRONG-META")
-									}
-									if l, ok := a[1].(*absint.List); ok {
-										for _, e := range l.Elems {
-											registered = append(registered, absint.Show(e))
+									t.ext["(reflect.StructTag).Lookup"] = func(ip *absint.Interp, a []absint.Value) absint.Value {
+										tg := a[0].(*absint.Tok)
+										s := int(tg.Attr["sit"].(absint.Int))
+										if k, ok := a[1].(absint.Str); !ok || string(k) != ownTag {
+											panic(&absint.Undecided{Msg: "tag lookup with a key other than the processor's tag"})
 										}
-									}
-									return nil
-								}
-								return t, []absint.Value{d, absint.NewTok("registry", "registry"), absint.NewTok("component", "component"), absint.NewTok("NAME", "key")}, nil
-							}
-							check := func(ip *absint.Interp, out absint.Outcome) {
-								w := fmt.Sprintf("ownTag=%q handler=%v required=%v tagSaysRequired=%v fields=[%d %d] created=%v handlerAsked=%v setArgs=%v registered=%v => %s", ownTag, hasHandler, required, tagSaysRequired, s1, s2, created, handlerAsked, setArgs, registered, showOutcome(out))
-								if out.Panic != nil || (len(out.Ret) == 1 && isErrTok(out.Ret[0])) {
-									rs.fail("nothing", "PANIC/ERROR "+w)
-									return
-								}
-								var want []string
-								var wantAsked []string
-								for i, s := range []int{s1, s2} {
-									f := fmt.Sprintf("F%d", i)
-									own := ownTag != "" && (s == 0 || s == 4)
-									switch {
-									case own:
-										rs.hit("own-tag")
-										want = append(want, fmt.Sprintf("P(%s,\"Component\",%q,\" val:%s.Tag ,a=1 \")", f, ownTag, f))
-									case hasHandler && (s == 1 || s == 4 || s == 2):
-										rs.hit("handler")
-										wantAsked = append(wantAsked, f)
-										tg := ownTag
-										if s == 2 {
-											tg = "htag"
+										if s == 0 || s == 4 {
+											return absint.Tuple{absint.Str(" val:" + tg.ID + " ,a=1 "), absint.Bool(true)}
 										}
-										want = append(want, fmt.Sprintf("P(%s,\"Component\",%q,\" hval:%s ,b= \")", f, tg, f))
-									default:
-										rs.hit("nothing")
-										if hasHandler {
+										return absint.Tuple{absint.Str(""), absint.Bool(false)}
+									}
+									t.dynamic = func(ip *absint.Interp, fv absint.Value, a []absint.Value) (absint.Value, bool) {
+										if fv != absint.Value(handler) {
+											return nil, false
+										}
+										f := a[1].(*absint.Tok)
+										handlerAsked = append(handlerAsked, f.ID)
+										switch int(f.Attr["sit"].(absint.Int)) {
+										case 1, 4:
+											return absint.Tuple{absint.Str(""), absint.Str(" hval:" + f.ID + " ,b= "), absint.Bool(true)}, true
+										case 2:
+											return absint.Tuple{absint.Str("htag"), absint.Str(" hval:" + f.ID + " ,b= "), absint.Bool(true)}, true
+										}
+										return absint.Tuple{absint.Str(""), absint.Str(""), absint.Bool(false)}, true
+									}
+									t.callee[newProp] = func(ip *absint.Interp, a []absint.Value) absint.Value {
+										p := absint.NewTok(fmt.Sprintf("P(%s,%s,%s,%s)", absint.Show(a[0]), absint.Show(a[1]), absint.Show(a[2]), absint.Show(a[3])), "property")
+										created = append(created, p.ID)
+										return p
+									}
+									t.callee[argsM] = func(ip *absint.Interp, a []absint.Value) absint.Value { return a[0] }
+									t.callee[has] = func(ip *absint.Interp, a []absint.Value) absint.Value {
+										if k, ok := a[1].(absint.Str); !ok || !strings.EqualFold(string(k), "required") {
+											panic(&absint.Undecided{Msg: "Has asked about another argument"})
+										}
+										return absint.Bool(tagSaysRequired)
+									}
+									t.callee[setArg] = func(ip *absint.Interp, a []absint.Value) absint.Value {
+										setArgs = append(setArgs, absint.Show(a[0])+":"+absint.Show(a[1]))
+										return nil
+									}
+									t.callee[setProps] = func(ip *absint.Interp, a []absint.Value) absint.Value {
+										if a[0] != absint.Value(meta) {
+											registered = append(registered, "WRONG-META")
+										}
+										if l, ok := a[1].(*absint.List); ok {
+											for _, e := range l.Elems {
+												registered = append(registered, absint.Show(e))
+											}
+										}
+										return nil
+									}
+									return t, []absint.Value{d, absint.NewTok("registry", "registry"), absint.NewTok("component", "component"), absint.NewTok("NAME", "key")}, nil
+								}
+								check := func(ip *absint.Interp, out absint.Outcome) {
+									w := fmt.Sprintf("nodeType=%q ownTag=%q handler=%v required=%v tagSaysRequired=%v fields=[%d %d] created=%v handlerAsked=%v setArgs=%v registered=%v => %s", nodeType, ownTag, hasHandler, required, tagSaysRequired, s1, s2, created, handlerAsked, setArgs, registered, showOutcome(out))
+									if out.Panic != nil || (len(out.Ret) == 1 && isErrTok(out.Ret[0])) {
+										rs.fail("nothing", "PANIC/ERROR "+w)
+										return
+									}
+									var want []string
+									var wantAsked []string
+									for i, s := range []int{s1, s2} {
+										f := fmt.Sprintf("F%d", i)
+										own := ownTag != "" && (s == 0 || s == 4)
+										switch {
+										case own:
+											rs.hit("own-tag")
+											want = append(want, fmt.Sprintf("P(%s,%q,%q,\" val:%s.Tag ,a=1 \")", f, nodeType, ownTag, f))
+										case hasHandler && (s == 1 || s == 4 || s == 2):
+											rs.hit("handler")
 											wantAsked = append(wantAsked, f)
+											tg := ownTag
+											if s == 2 {
+												tg = "htag"
+											}
+											want = append(want, fmt.Sprintf("P(%s,%q,%q,\" hval:%s ,b= \")", f, nodeType, tg, f))
+										default:
+											rs.hit("nothing")
+											if hasHandler {
+												wantAsked = append(wantAsked, f)
+											}
 										}
 									}
-								}
-								row := "nothing"
-								if len(want) > 0 {
-									row = "own-tag"
-								}
-								if strings.Join(created, "|") != strings.Join(want, "|") || strings.Join(handlerAsked, "|") != strings.Join(wantAsked, "|") {
-									rs.fail(row, w+" expected "+strings.Join(want, "|"))
-								}
-								rs.hit("registered")
-								if strings.Join(registered, "|") != strings.Join(want, "|") || regKey == nil || absint.Show(regKey) != "NAME" {
-									rs.fail("registered", w)
-								}
-								rs.hit("required")
-								var wantSet []string
-								if required && !tagSaysRequired {
-									for _, p := range want {
-										wantSet = append(wantSet, p+":\"Required\"")
+									row := "nothing"
+									if len(want) > 0 {
+										row = "own-tag"
+									}
+									if strings.Join(created, "|") != strings.Join(want, "|") || strings.Join(handlerAsked, "|") != strings.Join(wantAsked, "|") {
+										rs.fail(row, w+" expected "+strings.Join(want, "|"))
+									}
+									rs.hit("registered")
+									if strings.Join(registered, "|") != strings.Join(want, "|") || regKey == nil || absint.Show(regKey) != "NAME" {
+										rs.fail("registered", w)
+									}
+									rs.hit("required")
+									var wantSet []string
+									if required && !tagSaysRequired {
+										for _, p := range want {
+											wantSet = append(wantSet, p+":\"Required\"")
+										}
+									}
+									if !strings.EqualFold(strings.Join(setArgs, "|"), strings.Join(wantSet, "|")) {
+										rs.fail("required", w)
 									}
 								}
-								if !strings.EqualFold(strings.Join(setArgs, "|"), strings.Join(wantSet, "|")) {
-									rs.fail("required", w)
+								n, u := runTable(c, fn, build, check)
+								runs += n
+								if u != "" {
+									return rs, runs, fn, u
 								}
-							}
-							n, u := runTable(c, fn, build, check)
-							runs += n
-							if u != "" {
-								return rs, runs, fn, u
 							}
 						}
 					}
